@@ -65,7 +65,7 @@ def in_range(e, t, w):
 
 
 def ret_val(t, w):
-    return wval('__CPROVER_return_value', t, w)
+    return wval('$RET', t, w)
 
 
 def pyop(op):
